@@ -203,40 +203,37 @@ func (set *SortedSet) AddOrUpdate(
 	}
 
 	for _, m := range members {
-		if strings.EqualFold(policy, "xx") {
-			// Only update existing elements, do not add new elements
-			if set.Contains(m.Value) {
-				set.members[m.Value] = MemberObject{
-					Value:  m.Value,
-					Score:  compareScores(set.members[m.Value].Score, m.Score, comp),
-					Exists: true,
-				}
-				if strings.EqualFold(ch, "ch") {
-					count += 1
-				}
+		current := set.members[m.Value]
+		if !current.Exists {
+			// XX never adds a member. GT and LT only restrict updates: a new member is added with its score.
+			if strings.EqualFold(policy, "xx") {
+				continue
 			}
-			continue
-		}
-		if strings.EqualFold(policy, "nx") {
-			// Only add new elements, do not update existing elements
-			if !set.Contains(m.Value) {
-				set.members[m.Value] = MemberObject{
-					Value:  m.Value,
-					Score:  m.Score,
-					Exists: true,
-				}
-				count += 1
+			set.members[m.Value] = MemberObject{
+				Value:  m.Value,
+				Score:  m.Score,
+				Exists: true,
 			}
-			continue
-		}
-		// Policy not specified, just Set the elements and scores
-		if set.members[m.Value].Score != m.Score || !set.members[m.Value].Exists {
 			count += 1
+			continue
+		}
+		// NX never updates an existing member.
+		if strings.EqualFold(policy, "nx") {
+			continue
+		}
+		score := compareScores(current.Score, m.Score, comp)
+		if score == current.Score {
+			// Nothing changed (same score, or GT/LT kept the current score).
+			continue
 		}
 		set.members[m.Value] = MemberObject{
 			Value:  m.Value,
-			Score:  compareScores(set.members[m.Value].Score, m.Score, comp),
+			Score:  score,
 			Exists: true,
+		}
+		// Without an update policy, updated members are still counted even when CH is absent.
+		if strings.EqualFold(ch, "ch") || policy == "" {
+			count += 1
 		}
 	}
 	return count, nil
